@@ -267,7 +267,8 @@ func hookHistories(env *vh.Env, rep *vh.Report, hs []*history) {
 				if op.kind == "send" {
 					got = append([]byte{}, client.MakeDataForVerif(p)...)
 				} else {
-					got = append([]byte{}, client.MakeDataForVerif(p, wnet.WithLicense(op.lic))...)
+					// options that are not the license must not influence the frame
+					got = append([]byte{}, client.MakeDataForVerif(p, wnet.WithSecureFlag(byte(i)), wnet.WithLicense(op.lic), wnet.WithPriority(i%2 == 0))...)
 				}
 			})
 			rep.Count("history-send:" + op.class)
@@ -319,7 +320,7 @@ func socketHistories(env *vh.Env, rep *vh.Report, hs []*history) {
 				if op.kind == "send" {
 					err = client.Send(p)
 				} else {
-					err = client.Send(p, wnet.WithLicense(op.lic))
+					err = client.Send(p, wnet.WithPriority(i%2 == 1), wnet.WithLicense(op.lic), wnet.WithSecureFlag(byte(i)))
 				}
 			})
 			if !oc.OK() || err != nil {
